@@ -276,10 +276,110 @@ def check_mutated_list(case, ctx):
     compare_sequences([oracle.value], got, "mutated-list")
 
 
+POISON = "\ud800"  # a lone surrogate: no text field can be serialised with it, the write of that record raises
+
+
+@st.composite
+def refused_write_case(draw):
+    seq = draw(gen.sequence_spec(max_len=6, max_desc=3).filter(lambda q: len(q) > 0))
+    ins = []
+    for _ in range(draw(st.integers(1, 3))):
+        j = draw(st.integers(0, len(seq) - 1))
+        # mostly in front of the record it was copied from: the refused record is then often the first of its type
+        pos = draw(st.integers(0, j)) if draw(st.integers(0, 3)) else draw(st.integers(0, len(seq)))
+        ins.append((pos, j))
+    return {"seq": seq, "refused": ins, "transport": draw(st.sampled_from(["bytesio", "path", "gz"]))}
+
+
+def _poisoned(m):
+    """A copy of the record model whose _source cannot be serialised (for a grouped record: of its last member)."""
+    if m.kind == "plain":
+        return gen.M("plain", dict(m.p, src=POISON))
+    recs = list(m.p["recs"])
+    recs[-1] = _poisoned(recs[-1])
+    return gen.M("grp", dict(m.p, recs=recs))
+
+
+def check_refused_writes(case, ctx):
+    """A write() that raises (the record cannot be serialised) is caught by the caller, who keeps writing: the
+    stream must read back as exactly the records whose write() returned."""
+    from flow.record import RecordReader, RecordStreamReader, RecordStreamWriter, RecordWriter
+
+    seq = [(m, False) for m in case["seq"]]
+    for pos, j in sorted(case["refused"], key=lambda x: -x[0]):
+        seq.insert(pos, (_poisoned(case["seq"][j]), True))
+    built = impl(lambda: [gen.build_any_record(m) for m, _ in seq])
+    if not built.ok:
+        ctx.cls("discarded:constructor-raised:" + built.type)
+        return
+    records = built.value
+    transport = case["transport"]
+    d = None
+    if transport == "bytesio":
+        fp = io.BytesIO()
+        w = RecordStreamWriter(fp)
+    else:
+        d = ctx.fresh_dir()
+        path = os.path.join(d, "out.records" + (".gz" if transport == "gz" else ""))
+        w = RecordWriter(path)
+    try:
+        written = []
+        seen = set()
+        first_refused = False
+        for (m, poison), r in zip(seq, records):
+            res = impl(w.write, r)
+            key = repr(m.p["desc"]) if m.kind == "plain" else "grp"
+            if poison:
+                if res.ok:
+                    ctx.cls("discarded:unserialisable-record-was-accepted")
+                    return
+                if key not in seen:
+                    first_refused = True
+            else:
+                if not res.ok:
+                    raise Violation("refused-writes/good-write-raised/" + res.type, "write of a serialisable record raised %r "
+                                    "after %d refused ones" % (res, sum(1 for (_, p_) in seq if p_)))
+                written.append(r)
+                seen.add(key)
+        w.flush()
+        if transport == "bytesio":
+            data = fp.getvalue()
+            w.close()
+            res = impl(lambda: list(RecordStreamReader(io.BytesIO(data))))
+        else:
+            w.close()
+
+            def rd():
+                reader = RecordReader(path)
+                try:
+                    return list(reader)
+                finally:
+                    reader.close()
+
+            res = impl(rd)
+    finally:
+        try:
+            w.close()
+        except Exception:
+            pass
+        if d:
+            import shutil
+
+            shutil.rmtree(d, ignore_errors=True)
+    ctx.cls("transport:" + transport, "refused:%d" % len(case["refused"]),
+            "first-of-type-refused" if first_refused else "later-of-type-refused")
+    if written and first_refused:
+        ctx.nontriv()
+    if not res.ok:
+        raise Violation("refused-writes/read-raised/" + res.type, "reading back raised %r" % (res,))
+    compare_sequences(written, res.value, "refused-writes")
+
+
 def parts(tier):
     return [
         Part("typedlist-mutated-in-place", check_mutated_list, strategy=mutated_list_case(), examples=(60, 1000)),
         Part("dynamic-holding-path", check_roundtrip, cases=dynamic_path_cases, exhaustive=True),
         Part("roundtrip", check_roundtrip, strategy=case_strategy(), examples=(200, 3000)),
+        Part("refused-writes", check_refused_writes, strategy=refused_write_case(), examples=(60, 1500)),
         Part("roundtrip-focused", check_roundtrip, strategy=focused_strategy(), examples=(300, 4000)),
     ]
